@@ -208,13 +208,22 @@ def state_oracle(h: H, p: Partial, rp, betas):
             else:
                 scripts = [(sc, False) for sc in short[:2]]
             for script, index_only in scripts:
-                it = iter(script)
                 used = []
+                calls = []
 
-                def fake_rand(*a, **k):
-                    r = next(it)
-                    used.append(r)
-                    return torch.tensor([np.float32(r)], dtype=torch.float32)
+                def fake_rand(*size, **k):
+                    # serves any call pattern (one variate per stratum, or one vectorised call); answers come from the
+                    # script in order, the last answer repeats if the implementation asks for more
+                    if len(size) == 1 and isinstance(size[0], (tuple, list, torch.Size)):
+                        size = tuple(size[0])
+                    n = int(np.prod(size)) if size else 1
+                    vals = []
+                    for _ in range(n):
+                        r = script[min(len(used), len(script) - 1)]
+                        used.append(r)
+                        vals.append(np.float32(r))
+                    calls.append(n)
+                    return torch.tensor(vals, dtype=k.get("dtype") or torch.float32).reshape(size if size else (1,))
 
                 with patched(torch, "rand", fake_rand):
                     try:
@@ -229,13 +238,22 @@ def state_oracle(h: H, p: Partial, rp, betas):
                 p.evaluations += 1
                 idxs = (ii if out is None else out["idxs"]).reshape(-1).tolist()
                 w = [] if out is None else out["weights"].reshape(-1).to(torch.float64).tolist()
-                if len(idxs) != bs or len(used) != bs:
-                    p.viol(f"{kp}/sample/arity", f"sample({bs}) -> {len(idxs)} indices using {len(used)} draws", rp)
+                if len(idxs) != bs:
+                    p.viol(f"{kp}/sample/batch-size", f"sample({bs}) -> {len(idxs)} indices", rp)
                     return False
+                # the precise oracle applies when the draws were consumed one per stratum in stratum order (this is how the
+                # variates are documented to be used); any other consumption pattern is judged by the draw-independent
+                # stratification oracle: the k-th index must carry mass inside the k-th stratum
+                per_stratum = calls == [1] * bs
+                if not per_stratum:
+                    p.extra["samples_judged_by_stratum_membership_only"] += 1
                 for k, (ix, r) in enumerate(zip(idxs, script)):
                     a_, b_ = seg * k, seg * (k + 1)
-                    u = float(np.float32(r)) * (b_ - a_) + a_
-                    adm = ref_idx(u)
+                    if per_stratum:
+                        u = float(np.float32(r)) * (b_ - a_) + a_
+                        adm = ref_idx(u)
+                    else:
+                        adm = {i for i in range(h.size) if prefix[i] - delta < b_ and prefix[i + 1] + delta > a_}
                     if ix not in adm:
                         cls = "index-not-stored" if not (0 <= ix < h.size) else "wrong-index"
                         p.viol(f"{kp}/sample/{cls}", f"sample({bs}) stratum {k} draw {r}: idx {ix}, admissible {sorted(adm)}; leaves {leaves[:h.size]}", rp,
@@ -265,7 +283,7 @@ def state_oracle(h: H, p: Partial, rp, betas):
     return True
 
 
-def make_apply(p: Partial, cfg, betas, seen_states):
+def make_apply(p: Partial, cfg, betas, seen_states, replay=False):
     def apply(h: H, op, path):
         p.evaluations += 1
         rp = {**cfg, "path": path}
@@ -311,7 +329,8 @@ def make_apply(p: Partial, cfg, betas, seen_states):
         k = canon(h)
         if k not in seen_states:
             seen_states.add(k)
-            if not state_oracle(h, p, rp, betas):
+            if not state_oracle(h, p, rp, betas) and not replay:
+                # (a replay walks through states the search had already judged elsewhere: keep going to the recorded one)
                 return None
             lv = [x for x in h.prio[: h.size]]
             if (h.cap & (h.cap - 1)) and h.wrapped:
@@ -330,7 +349,7 @@ def run_task(task):
     cfg = {k: task[k] for k in ("cap", "alpha", "betas", "depth", "init", "reduced")}
     h0 = H(task["cap"], task["alpha"], task["reduced"])
     seen = set()
-    apply = make_apply(p, cfg, task["betas"], seen)
+    apply = make_apply(p, cfg, task["betas"], seen, replay=task.get("path") is not None)
     pre = {"empty": [], "full": [{"op": "add", "w": task["cap"]}], "wrapped": [{"op": "add", "w": task["cap"]}, {"op": "add", "w": 1}]}[task["init"]]
     for i, op in enumerate(pre):  # the initial state is reached through the real code too (and judged)
         h0 = apply(h0, op, [])
